@@ -542,8 +542,8 @@ def _upvar_field(body, term, field):
 
 def _slice_agrees(dig, val):
     """digest_bytes(&data[a..b]) and the recorded tuple (name, a, b - a): both mention the same start variable"""
-    dv = {x[1] for x in walk(dig) if x[0] == "var"}
-    vv = {x[1] for x in walk(val) if x[0] == "var"}
+    dv = {(x[0], x[1]) for x in walk(dig) if x[0] in ("var", "param")}
+    vv = {(x[0], x[1]) for x in walk(val) if x[0] in ("var", "param")}
     return bool(dv & vv)
 
 
